@@ -5,6 +5,7 @@
 import Gzx.Obligations.C06Row39
 import Gzx.Proofs.Row39Code93
 import Gzx.Proofs.Row39Code39
+import Gzx.Proofs.Row39Codabar
 namespace Gzx.Obligations.C03Row39
 open Gzx Gzx.OneD Gzx.Row39 Gzx.Obligations.C06Row39
 
@@ -15,5 +16,9 @@ theorem gen_wf93row : WF93Row genRowTables = true := by decide +kernel
 /-- hypothesis of `code39_row_read_write`: 43 encodings and the asterisk pairwise distinct, each nine elements with
     exactly three wide ones; 43 alphabet characters, none of them '*' -/
 theorem gen_wf39row : WF39Row genRowTables = true := by decide +kernel
+
+/-- hypothesis of `codabar_row_read_write`: twenty distinct 7-bit words, none with four wide bars or three wide
+    spaces (the per-parity thresholds of `toNarrowWidePattern` need a narrow stripe of each kind), standard alphabet -/
+theorem gen_wfcbrow : WFCbRow genRowTables = true := by decide +kernel
 
 end Gzx.Obligations.C03Row39
